@@ -436,6 +436,12 @@ func (fmtr INSDCFormatter) WriteTo(w io.Writer) (int64, error) {
 
 var errFeatureKey = errors.New("expected feature key")
 
+// isFeatureKeyByte tests if a byte can be part of a feature key. The INSDC
+// keys are not all plain words: 5'UTR, 3'UTR, D-loop, -10_signal, -35_signal.
+func isFeatureKeyByte(c byte) bool {
+	return ascii.IsSnake(c) || c == '\'' || c == '-' || c == '*'
+}
+
 type keyline struct {
 	pre int
 	key string
@@ -444,7 +450,7 @@ type keyline struct {
 }
 
 func featureKeylineParser(prefix string, depth int) pars.Parser {
-	word := pars.Word(ascii.IsSnake).Error(errFeatureKey)
+	word := pars.Word(isFeatureKeyByte).Error(errFeatureKey)
 	p := []byte(prefix)
 	return func(state *pars.State, result *pars.Result) error {
 		if err := state.Request(len(p)); err != nil {
@@ -484,7 +490,7 @@ func featureKeylineParser(prefix string, depth int) pars.Parser {
 func INSDCTableParser(prefix string) pars.Parser {
 	firstParser := pars.Seq(
 		prefix, pars.Spaces,
-		pars.Word(ascii.IsSnake).Error(errFeatureKey), pars.Spaces,
+		pars.Word(isFeatureKeyByte).Error(errFeatureKey), pars.Spaces,
 		gts.ParseLocation, pars.EOL,
 	).Map(func(result *pars.Result) error {
 		children := result.Children
